@@ -49,9 +49,29 @@ def firstDup : List Str → Option Str
   | [] => none
   | x :: rest => if rest.contains x then some x else firstDup rest
 
+/-- Judged on the implementation's own IDs (the observable `grammar.Syms[].ID`): every symbol gets a
+valid identifier in the requested style (terminals upper-case, nonterminals not starting with a
+lower-case letter), distinct symbols get distinct IDs. -/
+def judgeIds (kind ids : String) (toks : List (Str × Str)) (nts : List Str) (flex : Bool)
+    (extra : String) : Option String := do
+  if kind != "ok" then some "holds" else
+  let goIds ← parseNames ids
+  let nTok := (tokenPhase ⟨toks, nts, flex, none, []⟩).syms.length
+  let termIds := goIds.take nTok
+  let ntIds := goIds.drop nTok
+  let ctx := " [" ++ renderDecls toks nts ++ extra ++ "]"
+  match firstDup goIds, goIds.find? (fun i => !validIdent i),
+        termIds.find? (fun i => i.any isLowerA && !(flex && i == cs ['Y','Y','e','r','r','o','r'])),
+        ntIds.find? (fun i => (i.head?.map isLowerA).getD false) with
+  | some i, _, _, _ => some s!"violates: two symbols of the compiled grammar have the ID `{printable i}` and no error is reported{ctx}"
+  | _, some i, _, _ => some s!"violates: a symbol of the compiled grammar has the ID `{printable i}` (empty, blank or not an identifier) and no error is reported{ctx}"
+  | _, _, some i, _ => some s!"violates: a terminal of the compiled grammar has the ID `{printable i}`, which is not in the upper-case style{ctx}"
+  | _, _, _, some i => some s!"violates: a nonterminal of the compiled grammar has the ID `{printable i}`, which starts with a lower-case letter{ctx}"
+  | none, none, none, none => some "holds"
+
 /-- ops:
 `ident <style> <name>` → `<id> <tmName> <printable id>`;
-`gram <toks> <nonterms>` / `gramf …` (flex mode) → `ok <ids of Syms>` | `err <errors>`;
+`gram <toks> <nonterms>` / `gramf …` (flex mode) / `gen <toks> <nonterms> <expanded> <midrule>` → `ok <ids of Syms>` | `err <errors>`;
 `judge <go answer> :: <case>` → does the implementation's answer violate the property? -/
 def handle (args : List String) : Option String :=
   match args with
@@ -61,7 +81,11 @@ def handle (args : List String) : Option String :=
   | [op, toks, nts] => do
     if op != "gram" && op != "gramf" then none else
     let toks ← parseToks toks; let nts ← parseNames nts
-    some (showResult (compileSyms ⟨toks, nts, op == "gramf"⟩))
+    some (showResult (compileSyms ⟨toks, nts, op == "gramf", none, []⟩))
+  | ["gen", toks, nts, final, mid] => do
+    let toks ← parseToks toks; let nts ← parseNames nts
+    let final ← parseNames final; let mid ← parseNames mid
+    some (showResult (compileSyms ⟨toks, nts, false, some final, mid⟩))
   | ["judge", goId, _, _, "::", "ident", _, name] => do
     let goId ← parseHex goId; let name ← parseHex name
     if tmName name && !validIdent goId then
@@ -71,24 +95,13 @@ def handle (args : List String) : Option String :=
     match rest with
     | [ids, "::", op, toks, nts] => do
       if op != "gram" && op != "gramf" then none else
-      let flex := op == "gramf"
       let toks ← parseToks toks; let nts ← parseNames nts
-      if kind != "ok" then some "holds" else
-      let goIds ← parseNames ids
-      -- judged on the implementation's own IDs (the observable `grammar.Syms[].ID`): every symbol gets a
-      -- valid identifier in the requested style (terminals upper-case, nonterminals not starting with a
-      -- lower-case letter), distinct symbols get distinct IDs
-      let nTok := (tokenPhase ⟨toks, nts, flex⟩).syms.length
-      let termIds := goIds.take nTok
-      let ntIds := goIds.drop nTok
-      let ctx := " [" ++ renderDecls toks nts ++ "]"
-      match firstDup goIds, goIds.find? (fun i => !validIdent i),
-            termIds.find? (fun i => i.any isLowerA && !(flex && i == cs ['Y','Y','e','r','r','o','r'])), ntIds.find? (fun i => (i.head?.map isLowerA).getD false) with
-      | some i, _, _, _ => some s!"violates: two symbols of the compiled grammar have the ID `{printable i}` and no error is reported{ctx}"
-      | _, some i, _, _ => some s!"violates: a symbol of the compiled grammar has the ID `{printable i}` (empty, blank or not an identifier) and no error is reported{ctx}"
-      | _, _, some i, _ => some s!"violates: a terminal of the compiled grammar has the ID `{printable i}`, which is not in the upper-case style{ctx}"
-      | _, _, _, some i => some s!"violates: a nonterminal of the compiled grammar has the ID `{printable i}`, which starts with a lower-case letter{ctx}"
-      | none, none, none, none => some "holds"
+      judgeIds kind ids toks nts (op == "gramf") ""
+    | [ids, "::", "gen", toks, nts, final, mid] => do
+      let toks ← parseToks toks; let nts ← parseNames nts
+      let final ← parseNames final; let mid ← parseNames mid
+      judgeIds kind ids toks nts false
+        s!"; expanded nonterminals: {", ".intercalate (final.map ascii)}; mid-rule: {", ".intercalate (mid.map ascii)}"
     | _ => none
   | _ => none
 
